@@ -351,6 +351,7 @@ func join(a, b context, node parse.Node, nodeName string) context {
 	a.element.attrSplit = a.element.attrSplit || b.element.attrSplit
 	a.attr.split = a.attr.split || b.attr.split
 	a.attr.afterAction = a.attr.afterAction || b.attr.afterAction
+	a.attr.inherited = a.attr.inherited && b.attr.inherited
 	// Accumulate the result of context-joining elements and attributes in a, since the
 	// contents of a are always returned.
 	a.element.names = joinNames(a.element.name, b.element.name, a.element.names, b.element.names)
@@ -575,6 +576,9 @@ func (e *escaper) escapeTree(c context, node parse.Node, name string, line int) 
 		// Already escaped.
 		return rebase(out, e.start[dname], c), dname
 	}
+	// From here on c.attr is marked as the attribute of the call site.
+	caller := c
+	c.attr.inherited = true
 	t := e.template(name)
 	if t == nil || t.Tree == nil {
 		// Three cases: The template exists but is empty, its tree was removed because its
@@ -604,7 +608,7 @@ func (e *escaper) escapeTree(c context, node parse.Node, name string, line int) 
 		t = dt
 	}
 	e.start[dname] = c
-	return e.computeOutCtx(c, t), dname
+	return rebase(e.computeOutCtx(c, t), c, caller), dname
 }
 
 // rebase adapts the output context out, computed for a template called in context c0,
@@ -616,10 +620,12 @@ func rebase(out, c0, c context) context {
 	if out.state == stateError {
 		return out
 	}
-	if out.state == stateAttr && c0.state == stateAttr && out.attr.name == c0.attr.name && strings.HasPrefix(out.attr.value, c0.attr.value) {
+	if out.attr.inherited && strings.HasPrefix(out.attr.value, c0.attr.value) {
+		// The template has not left the attribute it was called in.
 		out.attr.value = c.attr.value + out.attr.value[len(c0.attr.value):]
 		out.attr.ambiguousValue = out.attr.ambiguousValue || c.attr.ambiguousValue
 		out.attr.afterAction = out.attr.afterAction || c.attr.afterAction
+		out.attr.inherited = c.attr.inherited
 	}
 	if out.linkRel == c0.linkRel {
 		out.linkRel = c.linkRel
